@@ -3,7 +3,9 @@
    V is the leaf type ((value, metadata) pairs); veqb is insert's bytes.Equal test (any sound test).
    Keys are hex keys closed by the terminator (vkey) — what keybytesToHex produces for every byte key. *)
 From Coq Require Import List Arith Bool Lia.
+From Coq Require Import NArith.
 From Verif Require Import Trie.Model Trie.Keys Trie.ProofsWf Trie.ProofsMap Trie.ProofsCanon Trie.Theorems.
+From Verif Require Import State.StackedMap State.ProofsSM State.Model State.ProofsStage.
 Import ListNotations.
 
 Section C06_trie.
@@ -53,14 +55,97 @@ Section C06_trie.
      value node is its value alone, node.go valueNode.encodeConsensus) *)
 End C06_trie.
 
+(* Part 2 (journal / revisions): the stacked map with its per-key revision stacks (stackedmap.go) behaves as a
+   plain stack of maps, and PopTo restores precisely the earlier contents.  K, Vv are the key/value types
+   (state.go: addresses, code keys, storage keys with barrier, barrier keys); src is the getter of the base. *)
+Section C06_stackedmap.
+  Variables K Vv : Type.
+  Variable keqb : K -> K -> bool.
+  Hypothesis keqb_spec : forall a b, keqb a b = true <-> a = b.
+  Variable src : K -> Vv.
+
+  (* Get after any history of Push / Put / PopTo(d >= 1) from a fresh map equals lookup in the plain stack of
+     maps the same history denotes: the topmost level holding the key, else the source *)
+  Theorem stackedmap_refines_stack_of_maps (ops : list (smop K Vv)) k :
+    pops_ok K Vv ops ->
+    sm_get K Vv keqb src (sm_run K Vv keqb ops (sm_new K Vv)) k =
+    aget K Vv keqb src (a_run K Vv keqb ops [new_level K Vv]) k.
+  Proof. exact (stackedmap_refines_lemma K Vv keqb keqb_spec src ops k). Qed.
+
+  (* RevertTo(NewCheckpoint()) after any operations — puts, nested checkpoints, reverts to revisions above the
+     checkpoint — reads exactly as before the checkpoint, for every key *)
+  Theorem revert_restores (sm : StackedMap.smap K Vv) (ops : list (smop K Vv)) k :
+    inv K Vv keqb sm -> above K Vv (length (stack sm)) ops ->
+    sm_get K Vv keqb src (sm_pop_to K Vv keqb (snd (sm_push K Vv sm)) (sm_run K Vv keqb ops (fst (sm_push K Vv sm)))) k =
+    sm_get K Vv keqb src sm k.
+  Proof. exact (revert_restores_lemma K Vv keqb keqb_spec src sm ops k). Qed.
+
+  (* the invariant is established by New and kept by every operation, so it holds in every reachable map *)
+  Theorem stackedmap_inv_reachable (ops : list (smop K Vv)) :
+    pops_ok K Vv ops -> inv K Vv keqb (sm_run K Vv keqb ops (sm_new K Vv)).
+  Proof. intros P. exact (proj1 (run_refines K Vv keqb keqb_spec ops (sm_new K Vv) (inv_new K Vv keqb) P)) || exact (proj1 (run_refines K Vv keqb keqb_spec src ops (sm_new K Vv) (inv_new K Vv keqb) P)). Qed.
+End C06_stackedmap.
+
+(* the key type of state.go satisfies the hypothesis *)
+Lemma skey_eqb_spec a b : skey_eqb a b = true <-> a = b.
+Proof.
+  destruct a, b; cbn; try (split; intros E; discriminate).
+  - rewrite N.eqb_eq. split; intros E; [subst|inversion E]; auto.
+  - rewrite N.eqb_eq. split; intros E; [subst|inversion E]; auto.
+  - rewrite !andb_true_iff, !N.eqb_eq. split; [intros [[-> ->] ->]; auto|intros E; inversion E; auto].
+  - rewrite N.eqb_eq. split; intros E; [subst|inversion E]; auto.
+Qed.
+
+(* Part 3 (state layer, State/Model.v).  Proved here: the staged accounts trie is well formed, hence it is THE
+   canonical trie of its content (any two histories that stage the same account leaves get the same root), and a state
+   re-opened on the committed root reads the staged leaves.  Not proved in this work package (the executable model
+   is tied to the code by the correspondence run instead): state_refines_map (every getter after any history =
+   the abstract record map, including the barrier logic of Delete) and that the staged content is
+   `normalise (abs s)`; see manifest.d/C06.json. *)
+Section C06_state.
+  Variable hk hs : N -> list nat.
+  Variable trimkey : N -> bytes.
+  Hypothesis hk_valid : forall a, vkey (hk a).          (* secure keys are terminated hex keys *)
+
+  Theorem stage_wf_preserved s major minor :
+    wfc aleaf (st_base s) -> wfc aleaf (stage hk hs trimkey s major minor).
+  Proof. exact (stage_wf hk hs trimkey hk_valid s major minor). Qed.
+
+  (* partial form of stage_root_canonical: the root is determined by the staged content *)
+  Theorem stage_root_canonical_partial s major minor t :
+    wfc aleaf (st_base s) -> wfc aleaf t ->
+    (forall k, vkey k -> trie_get aleaf t k = trie_get aleaf (stage hk hs trimkey s major minor) k) ->
+    t = stage hk hs trimkey s major minor.
+  Proof. exact (stage_canonical hk hs trimkey hk_valid s major minor t). Qed.
+
+  (* partial form of reopen_reads_back: account records (balance, energy, master, code hash, storage root) *)
+  Theorem reopen_reads_back_partial s major minor a :
+    get_account hk hs (commit_reopen hk hs trimkey s major minor) a =
+    match trie_get aleaf (stage hk hs trimkey s major minor) (hk a) with
+    | Some (acc, _) => acc
+    | None => empty_account
+    end.
+  Proof. exact (reopen_reads hk hs trimkey s major minor a). Qed.
+End C06_state.
+
 (* ---- non-vacuity: concrete keys / histories meeting the hypotheses ---- *)
+Open Scope nat_scope.
 Example vkey_example : vkey (terminate [1; 2; 10]) /\ vkey (terminate [1; 2]) /\ vkey (terminate []).
 Proof. repeat split; apply vkey_terminate; repeat constructor. Qed.
 
-Definition ex_ops1 : list (op nat) :=
+Definition ex_ops1 : list (Theorems.op nat) :=
   [(terminate [1; 2; 3], Some 7); (terminate [1; 2; 4], Some 8); (terminate [1; 2], Some 9); (terminate [1; 2; 3], None)].
-Definition ex_ops2 : list (op nat) :=
+Definition ex_ops2 : list (Theorems.op nat) :=
   [(terminate [1; 2], Some 1); (terminate [1; 2; 4], Some 8); (terminate [1; 2], Some 9)].
+
+Example sm_history_ok :
+  pops_ok nat nat [SPut nat nat 1 10; SPush nat nat; SPut nat nat 1 11; SPush nat nat; SPut nat nat 2 5; SPopTo nat nat 2; SPopTo nat nat 1] /\
+  above nat nat 1 [SPut nat nat 1 11; SPush nat nat; SPut nat nat 2 5; SPopTo nat nat 2] /\
+  inv nat nat Nat.eqb (sm_new nat nat).
+Proof. repeat split; repeat constructor; auto; try discriminate. Qed.
+
+Example hk_example : vkey (terminate [3; 15; 0; 7]) /\ wfc aleaf Nil.
+Proof. split; [apply vkey_terminate; repeat constructor|left; reflexivity]. Qed.
 
 Example ops_valid : valid_ops nat ex_ops1 /\ valid_ops nat ex_ops2.
 Proof. split; repeat constructor. Qed.
@@ -77,3 +162,9 @@ Print Assumptions trie_refines_map.
 Print Assumptions trie_canonical.
 Print Assumptions root_depends_only_on_content.
 Print Assumptions trie_history_refines_map.
+Print Assumptions stackedmap_refines_stack_of_maps.
+Print Assumptions revert_restores.
+Print Assumptions stackedmap_inv_reachable.
+Print Assumptions stage_wf_preserved.
+Print Assumptions stage_root_canonical_partial.
+Print Assumptions reopen_reads_back_partial.
